@@ -100,7 +100,10 @@ class Face(ElementBase):
         edge = self.edges[corner]
 
         if isinstance(edge, Project):
+            # (a new object: the existing one may be used for other edges as well)
+            edge = Project(list(edge.label))
             edge.add_label(label)
+            self.edges[corner] = edge
             return
 
         self.add_edge(corner, Project(label))
